@@ -2947,6 +2947,8 @@ def check_C18(tier, seed):
         ('build-small', build('sm', N2)), ('append', "(length (append sm '(1)))"), ('append3', "(length (append sm sm nil))"), ('mapcar', "(length (mapcar '1+ sm))"),
         ('seq-filter', "(length (seq-filter (lambda (e) t) sm))"), ('splice', '(length `(0 ,@sm 1))'), ('eval-quoted', "(length (eval (list 'quote sm)))"),
         ('macroexpand', "(length (macroexpand (cons 'list sm)))"), ('list-call', "(length (eval (cons 'list sm)))"), ('plus-call', "(eval (cons '+ sm))"),
+        # the APPENDED operand is the long one (append walks and copies its arguments): a short list in front of 20 000 elements
+        ('build-mid', build('mid', 20000)), ('append-long-operand', "(length (append '(a b) mid))"), ('splice-long-operand', '(length `(a ,@mid z))'), ('append-two-long', "(length (append mid mid))"), ('drop-mid', '(setq mid nil)'),
         ('read-long', "(length '(" + ' '.join(['1'] * N2) + '))'), ('read-long-dotted', "(car (last '(" + ' '.join(['1'] * N2) + ' . 2)))'),
         ('closure-body', "(funcall (lambda () (length sm)))"),
         ('drop', '(setq big nil)'), ('drop2', '(setq big2 nil)'), ('drop-small', '(setq sm nil)'),
